@@ -196,6 +196,9 @@ func checkC01(w *World, r *Report) {
 	r.Rule("R01.5", "conversion API language: no Go API whose accepted/produced language strictly contains the XPath production sits on a conversion path (ParseFloat for string→number, %v/%g/'e' for number→string, byte length/indices for character-indexed functions)", 5)
 	r.guard("R01.5", func() { c01ApiLanguage(w, r) })
 
+	r.Rule("R01.7", "no implementation-dependent float→integer conversion on a value path: every conversion of a float64 to an integer type in package xpath is bounded on both sides by comparisons that hold on the path, or is a reviewed site", 1)
+	r.guard("R01.7", func() { c01FloatToInt(w, r) })
+
 	r.Rule("R01.6", "result accessors: GetBoolResult/GetNumResult/GetLiteralResult return the run error first, then 'no result', then convert with Boolean/Number/Literal respectively", 3)
 	r.guard("R01.6", func() { resultAccessors(w, r, "R01.6") })
 }
